@@ -283,7 +283,7 @@ fn gen_unit(rng: &mut Rng, h: &Init, apps: &[App], oneshot: bool) -> (UnitEnv, S
 enum RStep { Fire30, FirePing(usize), Ctl(usize, bool) }
 
 fn steps_tok(v: &[Step]) -> String {
-    if v.is_empty() { "-".into() } else { v.iter().map(|s| match s { Step::Fire(i) => format!("f{}", i), Step::Ctl(id, od) | Step::CtlPair(id, od, _, _) | Step::Race(id, od) => format!("c{}:{}", id, if *od { "od" } else { "st" }), Step::FireCtl(..) => unreachable!() }).collect::<Vec<_>>().join(",") }
+    if v.is_empty() { "-".into() } else { v.iter().map(|s| match s { Step::Fire(i) => format!("f{}", i), Step::Ctl(id, od) | Step::CtlPair(id, od, _, _) | Step::Race(id, od) | Step::Ctl2(id, od, _, _) | Step::CtlQueued(id, od) => format!("c{}:{}", id, if *od { "od" } else { "st" }), Step::FireCtl(..) => unreachable!() }).collect::<Vec<_>>().join(",") }
 }
 
 fn outcomes_tok(v: &VecDeque<HttpOutcome>) -> String {
@@ -461,6 +461,23 @@ pub fn run_history_opt(rng: &mut Rng, init: Init, nunits: usize, oneshot: bool, 
         envs.push((env, path));
         rplans.push(rplan);
     }
+    // two requests queued at one wait, the first refused by the policy: the second is taken at the next wait (and put to
+    // the policy with its own options)
+    for k in 0..nunits.saturating_sub(1) {
+        let neg = !envs[k].0.allow.starts_with("ok");
+        let plain_next = envs[k + 1].0.wake.iter().all(|s| matches!(s, Step::Fire(_) | Step::Ctl(..)));
+        if let ([Step::Ctl(a, od)], true, true) = (&envs[k].0.wake[..], neg, plain_next) {
+            if rng.chance(1, 2) {
+                let (a, od) = (*a, *od);
+                let (b, odb) = (1000 * (k + 1) + 270, rng.chance(1, 2));
+                envs[k].0.wake = vec![Step::Ctl2(a, od, b, odb)];
+                envs[k].1.push_str("queued2/");
+                envs[k + 1].0.wake = vec![Step::CtlQueued(b, odb)];
+                envs[k + 1].0.wakedt = (0, 0);
+                envs[k + 1].0.burst = false;
+            }
+        }
+    }
     {
         let mut h = hub.lock().unwrap();
         h.units = envs.iter().skip(1).map(|e| e.0.clone()).collect();
@@ -489,7 +506,7 @@ pub fn run_history_opt(rng: &mut Rng, init: Init, nunits: usize, oneshot: bool, 
         if runner.ended { break; }
         let (env, mut path) = envs[k].clone();
         let mut rplan = rplans[k].clone();
-        if k + 1 == nunits && drop_mode == 1 && env.during.is_empty() && !env.wake.iter().any(|s| matches!(s, Step::Ctl(..) | Step::Race(..))) {
+        if k + 1 == nunits && drop_mode == 1 && env.during.is_empty() && !env.wake.iter().any(|s| matches!(s, Step::Ctl(..) | Step::Race(..) | Step::Ctl2(..) | Step::CtlQueued(..))) {
             rplan.retain(|(s, _)| !matches!(s, RStep::Ctl(..)));
             runner.handle = None; runner.ctls.retain(|c| !c.done);
             dropped = true; path.push_str("dropctl-outer/");
